@@ -60,15 +60,19 @@ Definition md_entry (data : bytes) (pos : N) : res (N * (bytes * bytes)) :=
   Ok (pos + valLen, (key, val))
   end end end end end end.
 
-Fixpoint md_loop (count : nat) (data : bytes) (pos : N) (acc : list (bytes * bytes))
-  : res (N * list (bytes * bytes)) :=
+Fixpoint md_loop (count : nat) (data : bytes) (pos : N) : res (N * list (bytes * bytes)) :=
   match count with
-  | O => Ok (pos, acc)
+  | O => Ok (pos, [])
   | S c =>
       match md_entry data pos with
       | Panic => Panic
       | Err e => Err e
-      | Ok (pos', kv) => md_loop c data pos' (acc ++ [kv])
+      | Ok (pos', kv) =>
+          match md_loop c data pos' with
+          | Panic => Panic
+          | Err e => Err e
+          | Ok (p, l) => Ok (p, kv :: l)
+          end
       end
   end.
 
@@ -78,7 +82,7 @@ Definition md_unmarshal_wire (data : bytes) : res (list (bytes * bytes) * Z) :=
   if blen data <? 10 then Err ErrMeta else
   match slice_from 0 data with None => Panic | Some s0 =>
   match rd16 s0 with None => Panic | Some count =>
-  match md_loop (N.to_nat count) data 2 [] with
+  match md_loop (N.to_nat count) data 2 with
   | Panic => Panic
   | Err e => Err e
   | Ok (pos, hs) =>
